@@ -83,6 +83,9 @@ OBJECT object END_GROUP End_Object BEGIN_OBJECT begin_group inf nan Infinity -in
 x- -x a,b a;b a=b (a) {a} <a> a#b a&b a~b a|b a!b a%b [a] /* */ a/*b // é µ ٣ １２
 """.split()
 CURATED += ["foo*/", "/*x", "a*/b", "x/*", "*/", "a*b", "a/b"]
+# lexemes that mean something to str.format(), the % operator, re and string.Template
+CURATED += ['"{}"', "'{a}'", '"{0}"', '"%s"', '"%(a)s"', "<{m}>", "<%s>", '"{"', '"}"',
+            "'{0!r:>{1}}'", '"\\1"', '"$x"', "a{}", "%s", "{0}", "<{>"]
 CURATED += ["", " ", "a b", " a", "a ", "\t", "a\nb", "\xa0", "1 ", " 1"]
 # the longest forms each dialect admits (and one character more)
 CURATED += ["2001-01-01T12:00:00.123456Z", "2001-001T12:00:00.123456Z",
